@@ -5,7 +5,8 @@
 //! construct. This pass works on the *emitted* container tree instead, so it
 //! does not depend on how a reference came to be written: it walks every
 //! container, finds every object that carries a path (`->`, `->t->`, `f()`,
-//! `CNT?`, `^->`, `*`) and follows that path with the rules the runtime uses
+//! `CNT?`, `^->`, `*`; the items of a list value are looked up in `listDefs`
+//! the same way) and follows that path with the rules the runtime uses
 //! (`Path::new_with_components_string`, `Object::resolve_path`,
 //! `Container::content_at_path`), except that nothing is approximated: a path
 //! either names an object of the tree or the story is refused.
@@ -298,6 +299,24 @@ fn references_of<'a>(object: &'a Map<String, Value>, after_thread: bool) -> Vec<
     Vec::new()
 }
 
+/// The items of a list value are `Origin.item` names into `listDefs`; the runtime takes
+/// their origin for granted (`InkList::get_origin_names`).
+fn undefined_list_item<'a>(
+    object: &'a Map<String, Value>,
+    list_definitions: Option<&Map<String, Value>>,
+) -> Option<&'a str> {
+    let items = object.get("list")?.as_object()?;
+    items
+        .keys()
+        .find(|name| {
+            let defined = name
+                .split_once('.')
+                .and_then(|(origin, item)| list_definitions?.get(origin)?.as_object()?.get(item));
+            defined.is_none()
+        })
+        .map(String::as_str)
+}
+
 /// Check every reference of a story document (`{"inkVersion":…,"root":[…],…}`).
 pub(crate) fn check_story_references(document: &Value) -> Result<(), DanglingReference> {
     let Some(root) = document.get("root").and_then(Value::as_array) else {
@@ -306,6 +325,7 @@ pub(crate) fn check_story_references(document: &Value) -> Result<(), DanglingRef
     let tree = Tree::build(root);
 
     let global_declarations = tree.nodes[0].named.get("global decl").copied();
+    let list_definitions = document.get("listDefs").and_then(Value::as_object);
 
     for (container, node) in tree.nodes.iter().enumerate() {
         let in_global_declarations = tree.is_within(container, global_declarations);
@@ -320,6 +340,15 @@ pub(crate) fn check_story_references(document: &Value) -> Result<(), DanglingRef
             let Value::Object(object) = leaf else {
                 continue;
             };
+
+            if let Some(item) = undefined_list_item(object, list_definitions) {
+                return Err(DanglingReference {
+                    kind: "list item",
+                    target: item.to_owned(),
+                    location: tree.location(container, position),
+                    reason: "not found: no LIST defines it".to_owned(),
+                });
+            }
 
             for reference in references_of(object, was_after_thread) {
                 let dangling = |reason: String| DanglingReference {
